@@ -52,7 +52,7 @@ static void a_free(void* op, void* p) {
 }
 
 struct Scn {
-    int id = 0; int level = 3; int workers = 0; int ldm = 0; int wlog = 0; int strat = 0; int dictKind = 0; int streaming = 0; int nDD = 0; size_t n = 0; int rowmf = 0;
+    int id = 0; int level = 3; int workers = 0; int ldm = 0; int wlog = 0; int strat = 0; int dictKind = 0; int streaming = 0; int nDD = 0; size_t n = 0; int rowmf = 0; int two = 0;
     std::vector<uint8_t> x, dict;
 };
 static std::vector<uint8_t> g_golden;
@@ -76,6 +76,17 @@ static void compress_side(vf::Ctx& c, Alloc& A, const Scn& s, Out& o) {
         size_t r = 0;
         #define TRY(e) do { r = (e); if (ZSTD_isError(r)) return r; } while (0)
         TRY(ZSTD_CCtx_reset(cctx, ZSTD_reset_session_only));
+        if (s.two) {
+            // an earlier, smaller operation on the same context: the main one must GROW what the first one allocated
+            std::vector<uint8_t> small = sample(3000, 77), so(ZSTD_compressBound(3000));
+            TRY(ZSTD_CCtx_setParameter(cctx, ZSTD_c_compressionLevel, 1));
+            TRY(ZSTD_CCtx_setParameter(cctx, ZSTD_c_windowLog, 10));
+            TRY(ZSTD_CCtx_setParameter(cctx, ZSTD_c_nbWorkers, s.workers ? 1 : 0));
+            ZSTD_inBuffer i1 = {small.data(), small.size(), 0}; ZSTD_outBuffer o1 = {so.data(), so.size(), 0};
+            TRY(ZSTD_compressStream2(cctx, &o1, &i1, ZSTD_e_continue));
+            for (unsigned g = 0; g < 100000; g++) { TRY(ZSTD_compressStream2(cctx, &o1, &i1, ZSTD_e_end)); if (r == 0) break; }
+            TRY(ZSTD_CCtx_setParameter(cctx, ZSTD_c_windowLog, 0));
+        }
         TRY(ZSTD_CCtx_setParameter(cctx, ZSTD_c_compressionLevel, s.level));
         if (s.strat) TRY(ZSTD_CCtx_setParameter(cctx, ZSTD_c_strategy, s.strat));
         if (s.wlog) TRY(ZSTD_CCtx_setParameter(cctx, ZSTD_c_windowLog, s.wlog));
@@ -140,6 +151,14 @@ static void decompress_side(vf::Ctx& c, Alloc& A, const Scn& s, Out& o) {
         ZSTD_compressStream2(cc, &ob, &in, ZSTD_e_continue); while (ZSTD_compressStream2(cc, &ob, &in, ZSTD_e_end)) {}
         f.resize(ob.pos); ZSTD_freeCCtx(cc);
     }
+    std::vector<uint8_t> f0;   // small-window frame decoded first when s.two: the main frame needs bigger stream buffers
+    if (s.two) {
+        std::vector<uint8_t> small = sample(5000, 78); f0.resize(ZSTD_compressBound(small.size()));
+        ZSTD_CCtx* cc = ZSTD_createCCtx(); ZSTD_CCtx_setParameter(cc, ZSTD_c_windowLog, 10);
+        ZSTD_inBuffer in = {small.data(), small.size(), 0}; ZSTD_outBuffer ob = {f0.data(), f0.size(), 0};
+        ZSTD_compressStream2(cc, &ob, &in, ZSTD_e_continue); while (ZSTD_compressStream2(cc, &ob, &in, ZSTD_e_end)) {}
+        f0.resize(ob.pos); ZSTD_freeCCtx(cc);
+    }
     ZSTD_DCtx* d = ZSTD_createDCtx_advanced(cm);
     if (!d) { o.failed_call = true; return; }
     std::vector<ZSTD_DDict*> dds;
@@ -148,6 +167,11 @@ static void decompress_side(vf::Ctx& c, Alloc& A, const Scn& s, Out& o) {
         size_t r;
         #define TRY(e) do { r = (e); if (ZSTD_isError(r)) return r; } while (0)
         TRY(ZSTD_DCtx_reset(d, ZSTD_reset_session_only));
+        if (s.two) {
+            std::vector<uint8_t> tmp(6000);
+            ZSTD_inBuffer in = {f0.data(), f0.size(), 0}; ZSTD_outBuffer ob = {tmp.data(), tmp.size(), 0};
+            for (unsigned g = 0; g < 100000; g++) { ZSTD_inBuffer i2 = {f0.data(), std::min(f0.size(), in.pos + 300), in.pos}; TRY(ZSTD_decompressStream(d, &ob, &i2)); in.pos = i2.pos; if (r == 0 && in.pos == f0.size()) break; }
+        }
         if (s.nDD) {
             TRY(ZSTD_DCtx_setParameter(d, ZSTD_d_refMultipleDDicts, ZSTD_rmd_refMultipleDDicts));
             // table growth: many DDicts with distinct IDs, the right one among them
@@ -203,7 +227,7 @@ static void pool_side(vf::Ctx& c, Alloc& A, const Scn& s, Out& o) {
     (void)c;
 }
 
-static const int NSCN = 22;
+static const int NSCN = 27;
 static Scn catalogue(int id) {
     Scn s; s.id = id;
     s.x = sample(200000, (unsigned)id);
@@ -229,16 +253,22 @@ static Scn catalogue(int id) {
         case 17: s.level = 3; s.streaming = 1; s.dictKind = 1; s.dict = g_golden; break;
         case 18: s.level = 3; s.streaming = 1; s.dictKind = 2; s.dict = g_golden; break;
         case 19: s.level = 3; s.streaming = 1; s.nDD = 40; break;
-        // pool (id >= 20)
+        // pool (id 20, 21)
         case 20: s.level = 0; s.workers = 0; break;
-        default: s.level = 2; s.workers = 2; break;
+        case 21: s.level = 2; s.workers = 2; break;
+        // two operations on one context: the second must grow what the first allocated (ids 22..26)
+        case 22: s.level = 9; s.two = 1; break;                                   // CCtx workspace growth
+        case 23: s.level = 3; s.two = 1; s.workers = 3; s.streaming = 2; s.x = sample(1300000); break;   // MT resize 1 -> 3 workers
+        case 24: s.level = 3; s.two = 1; s.streaming = 2; s.ldm = 1; s.wlog = 21; break;
+        case 25: s.level = 3; s.two = 1; s.streaming = 1; s.wlog = 20; s.x = sample(400000); break;     // DCtx stream buffers growth
+        default: s.level = 3; s.two = 1; s.streaming = 1; s.wlog = 18; s.dictKind = 1; s.dict = g_golden; break;
     }
     return s;
 }
 
 static void run_scn(vf::Ctx& c, Alloc& A, const Scn& s, Out& o) {
-    if (s.id >= 20) pool_side(c, A, s, o);
-    else if (s.id >= 15) decompress_side(c, A, s, o);
+    if (s.id == 20 || s.id == 21) pool_side(c, A, s, o);
+    else if ((s.id >= 15 && s.id < 20) || s.id >= 25) decompress_side(c, A, s, o);
     else compress_side(c, A, s, o);
 }
 
@@ -275,7 +305,7 @@ void vf_case(vf::Ctx& c) {
         long total = count_allocs(c, s);
         c.note("catalogue scenario %d: %ld allocations, every k failed in turn", id, total);
         c.maxi("max_allocations_in_a_scenario", (uint64_t)total);
-        bool threaded = s.workers > 0 && s.id < 15;
+        bool threaded = s.workers > 0 && (s.id < 15 || s.id == 23);
         // threaded scenarios: the worker-side allocation order is not fixed, so k is swept further to cover the tail
         long upto = threaded ? total + 8 : total;
         for (long k = 1; k <= upto; k++) { fault_run(c, s, k, -1, total); c.label("catalogue_fault_runs"); }
@@ -287,7 +317,7 @@ void vf_case(vf::Ctx& c) {
     Scn s;
     s.id = (int)t.weighted({6, 3, 1}) == 0 ? 1 : 0;
     int side = (int)t.weighted({6, 3, 1});
-    s.id = side == 0 ? 1 : side == 1 ? 15 : 20;
+    s.id = side == 0 ? 1 : side == 1 ? 15 : 20;   // (side selects compress / decompress / pool)
     s.level = (int)t.irange(-5, 19);
     s.workers = (side != 1 && t.chance(25)) ? (int)t.range(1, 3) : 0;
     s.ldm = t.chance(20); s.wlog = t.chance(40) ? (int)t.range(10, 22) : 0;
@@ -296,6 +326,7 @@ void vf_case(vf::Ctx& c) {
     s.dictKind = t.chance(40) ? (int)t.range(1, side == 1 ? 2 : 3) : 0;
     s.streaming = (int)t.range(0, 2);
     s.nDD = (side == 1 && t.chance(25)) ? (int)t.range(1, 48) : 0;
+    s.two = t.chance(40);
     if (s.nDD) { s.dictKind = 0; }
     size_t maxn = (s.level >= 16 || s.strat >= 7) ? 40000 : (s.workers ? 1500000 : 300000);
     gen::ContentInfo ci;
